@@ -2,3 +2,10 @@ S4U_OBJS := $(OBJ)/s4usim.o $(OBJ)/s4usim_ops.o $(OBJ)/s4usim_walk.o $(OBJ)/s4us
 TARGETS += $(OUT)/s4usim
 $(OUT)/s4usim: $(S4U_OBJS) $(wildcard $(OBJ)/lmm_monitor.o)
 	$(CXX) -o $@ $^ $(LDLIBS)
+
+# engine A under engine E (C02): same harness, real context-factory threads driven by detsched
+TARGETS += $(OUT)/s4usim_ds
+$(OBJ)/s4usim_ds.o: /verif/sim/s4usim.cpp /verif/sim/s4usim.hpp /verif/sim/detsched.h
+	$(CXX) $(CXXFLAGS) -DS4USIM_DETSCHED -c $< -o $@
+$(OUT)/s4usim_ds: $(OBJ)/s4usim_ds.o $(OBJ)/s4usim_ops.o $(OBJ)/s4usim_walk.o $(OBJ)/s4usim_mon.o $(OBJ)/detsched.o
+	$(CXX) -rdynamic -o $@ $^ $(LDLIBS)
